@@ -116,7 +116,7 @@ def tar_mutants(r, tier):
             out += bytes(blk)
         return out + _pad(b"D" * datasize) + bytes(1024)
     for ents, rs, ds in (([(0, 10), (5, 10)], 100, 20), ([(50, 10), (10, 10)], 100, 20), ([(0, 10)], 5, 10), ([], 100, 0),
-                         ([(0, 0)] * 30, 100, 0), ([(i * 2, 1) for i in range(70000)], 140000, 70000) if tier == "thorough" else ([(i * 2, 1) for i in range(3000)], 6000, 3000),
+                         ([(0, 0)] * 30, 100, 0), ([(i * 2, 1) for i in range(30000)], 60000, 30000) if tier == "thorough" else ([(i * 2, 1) for i in range(3000)], 6000, 3000),
                          ([(0, 600)], 600, 100), ([(0, 100)], 1 << 62, 100)) + ((([(2 ** 63 - 5, 10)], 2 ** 63 + 5, 10), ([(1 << 40, 10)], 1 << 41, 10)) if tier == "thorough" else ()):
         yield ("sparse-huge-realsize" if rs >= (1 << 40) else "sparse-old"), old_sparse(ents, rs, ds)
     for m in (b"2\n0\n10\n5\n10\n", b"99999999\n", b"1\n-1\n5\n", b"1\n0\n", b"abc\n", b"3\n0\n1\n", b"0\n", b"1\n99999999999999999999\n1\n", b"2\n10\n5\n0\n5\n"):
@@ -241,11 +241,11 @@ def text_mutants(r, tier, ok, kind):
 def judge(oc, res, out, cls, data, tool, inputs):
     oc.inc("runs")
     oc.inc("class:" + cls.split(":")[0])
-    wit = {"input.bin": data[:1 << 20]}
+    wit = {"input.bin": data[:4 << 20]}
     if res.hang:
         if os.path.exists(out):
             os.unlink(out)
-        res2 = inputs(WATCHDOG * 5)
+        res2 = inputs(WATCHDOG * 15)     # generous: slow (quadratic) is not the same as never
         if res2.hang:
             oc.violate("%s:hang:%s" % (tool, cls), "no exit within the watchdog twice", wit)
             return
